@@ -149,6 +149,54 @@ class DefaultSchemaOb(StmtOb):
         return {"real_ok": ro, "lifted_matches": lm, "detail": {"under_default": pick(r1), "qualified": pick(r2)}}
 
 
+# names quoted AS A WHOLE with a dot inside (bigquery / mysql / sparksql): already qualified, hence unaffected by S; the
+# unqualified table next to them takes S.  (sql under the default, its explicitly qualified twin)
+RAW_TWINS = {
+    "quoted_dotted_source/sparksql": ("sparksql", "INSERT INTO zqt1 SELECT ca FROM `zqs1.zqt2`", "INSERT INTO zqs9.zqt1 SELECT ca FROM `zqs1.zqt2`"),
+    "quoted_dotted_target/bigquery": ("bigquery", "INSERT INTO `zqs1.zqt1` SELECT ca FROM zqt2", "INSERT INTO `zqs1.zqt1` SELECT ca FROM zqs9.zqt2"),
+    "quoted_dotted_join/mysql": ("mysql", "INSERT INTO zqt1 SELECT a.ca, b.cb FROM `zqs1.zqt2` AS a JOIN zqt3 AS b ON a.id = b.id",
+                                 "INSERT INTO zqs9.zqt1 SELECT a.ca, b.cb FROM `zqs1.zqt2` AS a JOIN zqs9.zqt3 AS b ON a.id = b.id"),
+    "three_part_quoted_dotted/bigquery": ("bigquery", "INSERT INTO zqt1 SELECT ca FROM `zqs1.zqs2.zqt2`", "INSERT INTO zqs9.zqt1 SELECT ca FROM `zqs1.zqs2.zqt2`"),
+    "parts_quoted_separately/sparksql": ("sparksql", "INSERT INTO zqt1 SELECT ca FROM `zqs1`.`zqt2`", "INSERT INTO zqs9.zqt1 SELECT ca FROM `zqs1`.`zqt2`"),
+}
+
+
+class RawDefaultSchemaOb(DefaultSchemaOb):
+    def __init__(self, name, dialect, sql, sql2, mech="override", legacy=False):
+        self.tkey, self.st, self.dialect, self.quotes = name, None, dialect, {}
+        self.mech, self.slen, self.legacy = mech, 2, legacy
+        self.sql, self.sql2, self.stmts = sql, sql2, [sql]
+        self.slots = list(dict.fromkeys(m.lower() for m in PLACEHOLDER.findall(sql)))
+        self.slots2 = list(dict.fromkeys(self.slots + [SSLOT]))
+        self.free = set(self.slots)
+        self.key = "%s%s/raw/%s" % ("legacy/" if legacy else "", mech, name)
+
+    def prepare(self):
+        if self.legacy:
+            from lx.legacy import LegacyScript
+
+            self.dialect = "non-validating"
+            self.script, self.script2 = LegacyScript([self.sql]), LegacyScript([self.sql2])
+        else:
+            DefaultSchemaOb.prepare(self)
+
+    def body(self):
+        from sqllineage.exceptions import SQLLineageException
+        from lx.lifted import Dump
+
+        names = self.names()
+        S = names[SSLOT]
+        d2 = self.dump(self.script2.runner(names))
+        try:
+            d1 = self.run_default(names, S)
+        except SQLLineageException as e:
+            # accepted when qualified explicitly, refused under the default: a difference like any other
+            return self.verdict(names, Dump([], [], [], [], {"raised": type(e).__name__}), d2, ok=False)
+        ok = self.compare(d1, d2) and set_eq(d1.extra["cyto_table"], d2.extra["cyto_table"]) \
+            and set_eq(d1.extra["cyto_column"], d2.extra["cyto_column"])
+        return self.verdict(names, d1, d2, ok=ok)
+
+
 class LegacyDefaultSchemaOb(DefaultSchemaOb):
     """the same twin under the legacy non-validating (sqlparse) analyzer"""
 
@@ -189,6 +237,10 @@ def obligations(tier, seed):
     lsub = [(k, st) for k, st in tpl if ("/plain" in k and k.startswith("insert/") and "paren" not in k and "mixed" not in k) or k.startswith(("update/", "merge/table"))]
     for k, st in (lsub if tier == "thorough" else rnd.sample(lsub, min(len(lsub), 16))):
         obs.append(LegacyDefaultSchemaOb(k, st, "override", budget, seed))
+    for name, (d, sql, sql2) in RAW_TWINS.items():
+        obs.append(RawDefaultSchemaOb(name, d, sql, sql2, "override"))
+        obs.append(RawDefaultSchemaOb(name, d, sql, sql2, "env"))
+        obs.append(RawDefaultSchemaOb(name, d, sql, sql2, "override", legacy=True))
     if tier == "thorough":
         for k, st in tpl:
             if "/plain" in k and k.startswith("insert/"):
